@@ -65,12 +65,20 @@ func (sess *UserSession) Copy(numSet imap.NumSet, destName string) (*imap.CopyDa
 		}
 	}
 
-	var sourceUIDs, destUIDs imap.UIDSet
+	// Never hold the locks of two mailboxes at once: two sessions copying in
+	// opposite directions would deadlock. Take a snapshot of the messages under
+	// the source lock, then append them to the destination.
+	var copies []messageCopy
 	sess.mailbox.forEach(numSet, func(seqNum uint32, msg *message) {
-		appendData := dest.copyMsg(msg)
-		sourceUIDs.AddNum(msg.uid)
-		destUIDs.AddNum(appendData.UID)
+		copies = append(copies, msg.copy())
 	})
+
+	var sourceUIDs, destUIDs imap.UIDSet
+	for _, c := range copies {
+		appendData := dest.appendBytes(c.buf, &c.options)
+		sourceUIDs.AddNum(c.uid)
+		destUIDs.AddNum(appendData.UID)
+	}
 
 	return &imap.CopyData{
 		UIDValidity: dest.uidValidity,
@@ -94,20 +102,26 @@ func (sess *UserSession) Move(w *imapserver.MoveWriter, numSet imap.NumSet, dest
 		}
 	}
 
-	sess.mailbox.mutex.Lock()
-	defer sess.mailbox.mutex.Unlock()
-
-	var sourceUIDs, destUIDs imap.UIDSet
+	// Never hold the locks of two mailboxes at once, see Copy
+	var copies []messageCopy
 	expunged := make(map[*message]struct{})
-	sess.mailbox.forEachLocked(numSet, func(seqNum uint32, msg *message) {
-		appendData := dest.copyMsg(msg)
-		sourceUIDs.AddNum(msg.uid)
-		destUIDs.AddNum(appendData.UID)
+	sess.mailbox.forEach(numSet, func(seqNum uint32, msg *message) {
+		copies = append(copies, msg.copy())
 		expunged[msg] = struct{}{}
 	})
+
+	var sourceUIDs, destUIDs imap.UIDSet
+	for _, c := range copies {
+		appendData := dest.appendBytes(c.buf, &c.options)
+		sourceUIDs.AddNum(c.uid)
+		destUIDs.AddNum(appendData.UID)
+	}
+
 	// The expunges are queued in the mailbox tracker for all sessions,
 	// including this one: they're sent when the command completes
+	sess.mailbox.mutex.Lock()
 	sess.mailbox.expungeLocked(expunged)
+	sess.mailbox.mutex.Unlock()
 
 	return w.WriteCopyData(&imap.CopyData{
 		UIDValidity: dest.uidValidity,
